@@ -65,26 +65,26 @@ func run(c hx.Config) error {
 				for variant := 0; variant < 2; variant++ {
 					// A: directly on the fresh base, sibling fan-out, then on the result
 					h := storex.NewHist(b, true)
-					if h.Step(0, m, variant, o) {
-						h.Step(0, m, variant+1, o)
-						h.Step(0, hx.Pick(rng, methods), rng.Intn(3), o)
+					if h.StepL(0, m, variant, o) {
+						h.StepL(0, m, variant+1, o)
+						h.StepL(0, hx.Pick(rng, methods), rng.Intn(3), o)
 						last := len(h.Live) - 1
-						h.Step(1, hx.Pick(rng, methods), rng.Intn(3), o)
-						h.Step(last, m, variant, o)
+						h.StepL(1, hx.Pick(rng, methods), rng.Intn(3), o)
+						h.StepL(last, m, variant, o)
 						emit(h, o, "A")
 					}
 					// B: after a random prefix
 					h = storex.NewHist(b, true)
 					for i := 0; i < 2+rng.Intn(3); i++ {
-						h.Step(rng.Intn(len(h.Live)), hx.Pick(rng, methods), rng.Intn(3), o)
+						h.StepL(rng.Intn(len(h.Live)), hx.Pick(rng, methods), rng.Intn(3), o)
 					}
 					ri := rng.Intn(len(h.Live))
-					if h.Step(ri, m, variant, o) {
-						h.Step(ri, hx.Pick(rng, methods), rng.Intn(3), o)
-						h.Step(rng.Intn(len(h.Live)), hx.Pick(rng, methods), rng.Intn(3), o)
+					if h.StepL(ri, m, variant, o) {
+						h.StepL(ri, hx.Pick(rng, methods), rng.Intn(3), o)
+						h.StepL(rng.Intn(len(h.Live)), hx.Pick(rng, methods), rng.Intn(3), o)
 						if c.Thorough() {
 							for i := 0; i < 6; i++ {
-								h.Step(rng.Intn(len(h.Live)), hx.Pick(rng, methods), rng.Intn(3), o)
+								h.StepL(rng.Intn(len(h.Live)), hx.Pick(rng, methods), rng.Intn(3), o)
 							}
 						}
 						emit(h, o, "B")
@@ -110,11 +110,11 @@ func run(c hx.Config) error {
 									continue
 								}
 								h := storex.NewHist(b, true)
-								if !h.Step(0, m1, v1, o) {
+								if !h.StepL(0, m1, v1, o) {
 									continue
 								}
-								h.Step(1, hx.Pick(rng, methods), rng.Intn(3), o) // earlier sibling of what m2 derives
-								if h.Step(1, m2, v2, o) {
+								h.StepL(1, hx.Pick(rng, methods), rng.Intn(3), o) // earlier sibling of what m2 derives
+								if h.StepL(1, m2, v2, o) {
 									emit(h, o, "D")
 								}
 							}
@@ -125,15 +125,15 @@ func run(c hx.Config) error {
 			// C: long check chains crossing capacities, siblings at every boundary
 			for _, m := range methods {
 				h := storex.NewHist(b, true)
-				if !h.Step(0, m, 0, o) || !strings.HasPrefix(h.Steps[0], "0 derive 1 ") {
+				if !h.StepL(0, m, 0, o) || !strings.HasPrefix(h.Steps[0], "0 derive 1 ") {
 					continue
 				}
 				cur := 1
 				for n := 2; n <= 17; n++ {
 					if n == 2 || n == 3 || n == 5 || n == 9 || n == 17 || n == 4 {
-						h.Step(cur, m, n, o) // sibling that is not continued
+						h.StepL(cur, m, n, o) // sibling that is not continued
 					}
-					if !h.Step(cur, m, n+1, o) {
+					if !h.StepL(cur, m, n+1, o) {
 						break
 					}
 					cur = len(h.Live) - 1
